@@ -76,7 +76,7 @@ def check(pid, tier, replay=None):
         if rc != 0:
             raise Broken("digest harness (%s) failed:\n%s" % (part, out[-3000:]))
         allf.write(open(os.path.join(work, part + ".ndjson")).read())
-    rc, out = vlib.run_harness(binary, "TestFuzz", {"DIG_OUT": work, "VERIF_SEED": sd, "DIG_RUNS": 15000 if quick else 400000}, timeout=3000)
+    rc, out = vlib.run_harness(binary, "TestFuzz", {"DIG_OUT": work, "VERIF_SEED": sd, "DIG_RUNS": 50000 if quick else 400000}, timeout=3000)
     if rc != 0:
         raise Broken("digest fuzz harness failed:\n" + out[-3000:])
     allf.write(open(os.path.join(work, "fuzz.ndjson")).read())
